@@ -7,6 +7,10 @@ model; real get_mpo_tensor vs mpoTensorOf; real compute_caps (Simple / File) vs 
 process tensors vs ptOfJoint and the joint evolution on one index; the commutation hypothesis
 evaluated exactly on the shipped tensors together with the order independence it predicts.
 
+Controls are keyed by step or by float time with start_time != 0; object histories (overwrite a
+stored tensor after a contraction; random set_*/get_* traces) are compared with a fresh object and
+with the Lean object model (memoisation behaviour regenerated from the source).
+
 search(): oracles on the real code only — ancilla process tensors (rank 4, rank 4 in a transformed
 basis, rank 3, rank 3 in the Pauli-transfer basis; Simple and File) vs dense joint evolution in
 density-matrix form; permutations of commuting PT-TEMPO tensors; two baths vs the summed bath.
@@ -33,6 +37,7 @@ THEOREMS = [P + t for t in (
     "get_mpo_tensor_spec", "caps_wiring_consistent", "caps_close_transformed",
     "caps_fixed_point", "caps_fixed_point_joint",
     "dynamics_eq_joint", "finite_pt_last_bond", "dynamics_eq_joint_finite", "skip_trivial",
+    "caches_safe", "get_is_function_of_current", "stored_is_last_set", "history_independent",
     "sum_of_baths_infl", "sum_of_baths_entry", "sum_of_baths_tables", "combined_dense",
     "sum_of_baths_dense", "sum_of_baths",
 )]
@@ -41,6 +46,8 @@ DT = 0.1
 
 KEY_CAPS_SIMPLE = "caps:SimpleProcessTensor:rank-3 tensors with transforms"
 KEY_CAPS_FILE = "caps:FileProcessTensor:transforms"
+KEY_TIME_CONTROLS = "controls:float-time controls with start_time != 0"
+KEY_HISTORY = "history:%sProcessTensor:set_mpo_tensor after the step was read"
 
 
 @contextlib.contextmanager
@@ -164,8 +171,9 @@ def multi_lines(pts, n, L, rho0, props, controls):
     return ["multi %d %d %d %s | %s" % (L, n, len(pts), mode, body) for mode in ("list", "one")], tensors
 
 
-def rand_control(rng, d, n):
-    """oqupy.Control with random (non trace preserving) superoperators at random steps"""
+def rand_control(rng, d, n, start=0.0):
+    """oqupy.Control with random (non trace preserving) superoperators at random steps, keyed by
+    step (int) or by time (float: start + k*dt)"""
     import oqupy
     L = d * d
     ctl = oqupy.Control(d)
@@ -173,8 +181,10 @@ def rand_control(rng, d, n):
     for k in range(n + 1):
         for post in (False, True):
             if rng.random() < 0.4:
-                ctl.add_single(k, np.eye(L) + dyadic(rng, (L, L), den=8, span=2), post=post)
-                desc.append((k, post))
+                as_time = rng.random() < 0.5
+                ctl.add_single(control_key(k, start, as_time),
+                               np.eye(L) + dyadic(rng, (L, L), den=8, span=2), post=post)
+                desc.append((k, "post" if post else "pre", "time" if as_time else "step"))
     return ctl, desc
 
 
@@ -184,23 +194,33 @@ def rand_system(rng, d):
     return oqupy.System(cases.rand_herm(rng, d, 0.8))
 
 
-def run_real(system, rho0, pts, n, control=None):
+def run_real(system, rho0, pts, n, control=None, start=0.0):
     import oqupy
     with quiet():
         dyn = oqupy.compute_dynamics(system, initial_state=rho0, dt=DT, num_steps=n,
-                                     process_tensor=list(pts), control=control,
+                                     start_time=start, process_tensor=list(pts), control=control,
                                      progress_type="silent")
     return [np.array(s).reshape(-1) for s in dyn.states]
 
 
-def system_parts(system, control):
+def system_parts(system, control, start=0.0):
+    """the propagators and the controls of step k as the documented API gives them for a
+    computation that starts at `start`"""
     from oqupy.config import SUBDIV_LIMIT, INTEGRATE_EPSREL
-    props = system.get_propagators(DT, 0.0, SUBDIV_LIMIT, INTEGRATE_EPSREL)
+    props = system.get_propagators(DT, start, SUBDIV_LIMIT, INTEGRATE_EPSREL)
 
     def controls(k):
         with quiet():
-            return control.get_controls(k, dt=DT, start_time=0.0)
+            return control.get_controls(k, dt=DT, start_time=start)
     return props, controls
+
+
+STARTS = [0.0, 1.5, -0.8, 0.37, -1.23]      # zero, positive, negative, non-multiples of dt
+
+
+def control_key(k, start, as_time):
+    """the key under which a control of step k is registered: the step (int) or its time (float)"""
+    return float(start + k * DT) if as_time else int(k)
 
 
 # ---------------------------------------------------------------------------
@@ -325,7 +345,7 @@ def dense_joint(kraus_steps, rhoE, rho0, hams, ctrl_ops, n, e, d):
     return states
 
 
-def ancilla_case(rng, variant, cls="simple", n=None, e=None):
+def ancilla_case(rng, variant, cls="simple", n=None, e=None, timed=False, force_step_keys=False):
     """build one ancilla process tensor + the inputs of compute_dynamics; returns a dict"""
     import oqupy
     from oqupy import operators as op
@@ -362,18 +382,35 @@ def ancilla_case(rng, variant, cls="simple", n=None, e=None):
     Us = [joint_superop(ks, e, d) for ks in kraus]
     spec = {"kind": variant, "mpos": mpos, "tin": tin, "tout": tout}
     ctrl_ops = {}
-    ctl = oqupy.Control(d)
     for k in range(n + 1):
         for post in (False, True):
-            if rng.random() < 0.35:
+            if rng.random() < (0.55 if timed else 0.35):
                 K = np.eye(d) + 0.3 * np.array([[rng.gauss(0, 1) + 1j * rng.gauss(0, 1)
                                                  for _ in range(d)] for _ in range(d)])
                 ctrl_ops[(k, post)] = K
-                ctl.add_single(k, op.left_right_super(K, K.conj().T), post=post)
+    # (drawn after everything else, so that `timed=False` reproduces the stored corpus cases)
+    start, as_time = 0.0, {}
+    if timed:
+        start = rng.choice(STARTS[1:])
+        if not ctrl_ops:
+            ctrl_ops[(min(1, n), False)] = np.array([[1.0, 0.4], [0.0, 0.8]], dtype=complex)
+        as_time = {kp: (rng.random() < 0.7) for kp in sorted(ctrl_ops)}
+        if not any(as_time.values()):
+            as_time[sorted(ctrl_ops)[0]] = True
+        if force_step_keys:
+            as_time = {}
+    ctl = oqupy.Control(d)
+    for (k, post) in sorted(ctrl_ops):
+        K = ctrl_ops[(k, post)]
+        ctl.add_single(control_key(k, start, as_time.get((k, post), False)),
+                       op.left_right_super(K, K.conj().T), post=post)
     return dict(d=d, e=e, n=n, variant=variant, cls=cls, kraus=kraus, Us=Us, rhoE=rhoE, rho0=rho0,
-                ham=ham, spec=spec, ctrl_ops=ctrl_ops, control=ctl,
+                ham=ham, spec=spec, ctrl_ops=ctrl_ops, control=ctl, start=start,
                 desc={"variant": variant, "class": cls, "d": d, "e": e, "n": n, "joint": kind,
-                      "controls": sorted("%d%s" % (k, "post" if p else "pre") for k, p in ctrl_ops)})
+                      "start_time": start,
+                      "controls": sorted("%d%s%s" % (k, "post" if p else "pre",
+                                                     "@time" if as_time.get((k, p)) else "")
+                                         for k, p in ctrl_ops)})
 
 
 def ancilla_error(case):
@@ -381,12 +418,80 @@ def ancilla_error(case):
     import oqupy
     pt = build_pt(case["spec"], case["d"], case["n"], case["cls"])
     try:
-        real = run_real(oqupy.System(case["ham"]), case["rho0"], [pt], case["n"], case["control"])
+        real = run_real(oqupy.System(case["ham"]), case["rho0"], [pt], case["n"], case["control"],
+                        case.get("start", 0.0))
     finally:
         drop_pt(pt)
     ref = dense_joint(case["kraus"], case["rhoE"], case["rho0"], case["ham"], case["ctrl_ops"],
                       case["n"], case["e"], case["d"])
     return max(np.abs(a - b).max() for a, b in zip(real, ref)), real, ref
+
+
+def expected_mpo(raw, tin, tout):
+    """what get_mpo_tensor has to return for the stored tensor `raw` (numpy, independent)"""
+    t = np.asarray(raw, dtype=complex)
+    if t.ndim == 3:
+        t = np.einsum("bci,io->bcio", t, np.eye(t.shape[2]))
+    if tin is not None:
+        t = np.einsum("si,bcio->bcso", tin, t)
+    if tout is not None:
+        t = np.einsum("bcso,or->bcsr", t, tout)
+    return t
+
+
+def history_trace(rng, cls, kind):
+    """random set_*/get_* history on a real object; returns (driver line, real answers, desc).
+    Every stored tensor is a distinct random `version`; an answer is the version whose image
+    (delta expansion + transforms for mpo tensors, identity for caps) the getter returned."""
+    from oqupy.process_tensor import FileProcessTensor, SimpleProcessTensor
+    d, L = 2, 4
+    form = rng.choice(["rank3", "rank4-t", "rank3-t", "rank4"])
+    tin = tout = None
+    if form.endswith("-t"):
+        tin, tout = dyadic(rng, (L, L), den=2, span=2), dyadic(rng, (L, L), den=2, span=2)
+    if cls == "simple":
+        pt = SimpleProcessTensor(hilbert_space_dimension=d, dt=DT, transform_in=tin, transform_out=tout)
+    else:
+        pt = FileProcessTensor(mode="write", hilbert_space_dimension=d, dt=DT,
+                               transform_in=tin, transform_out=tout)
+    nsteps = rng.randrange(1, 4)
+    versions = {}          # step -> list of (id, stored array)
+    ops, answers, next_id = [], [], 1
+    try:
+        def do_set(k):
+            nonlocal next_id
+            if kind == "mpo":
+                shp = (1, 1, L) if form.startswith("rank3") else (1, 1, L, L)
+            else:
+                shp = (rng.randrange(1, 4),)
+            v = dyadic(rng, shp, den=2, span=3) + next_id        # distinct from every other version
+            (pt.set_mpo_tensor if kind == "mpo" else pt.set_cap_tensor)(k, np.array(v, dtype=complex))
+            versions.setdefault(k, []).append((next_id, v))
+            ops.append("s %d %d" % (k, next_id))
+            answers.append("-")
+            next_id += 1
+        for k in range(nsteps):
+            do_set(k)
+        for _ in range(rng.randrange(3, 9)):
+            k = rng.randrange(nsteps)
+            if rng.random() < 0.4:
+                do_set(k)
+            else:
+                got = pt.get_mpo_tensor(k) if kind == "mpo" else pt.get_cap_tensor(k)
+                ans = "?"
+                if got is None:
+                    ans = "-"
+                else:
+                    for vid, v in versions[k]:
+                        want = expected_mpo(v, tin, tout) if kind == "mpo" else np.asarray(v)
+                        if np.shape(got) == want.shape and np.abs(np.asarray(got) - want).max() < 1e-9:
+                            ans = str(vid)
+                ops.append("g %d" % k)
+                answers.append(ans)
+    finally:
+        drop_pt(pt)
+    desc = {"class": cls, "kind": kind, "form": form, "ops": " | ".join(ops)}
+    return "hist %s %s | %s" % (cls, kind, " | ".join(ops)), " ".join(answers), desc
 
 
 # ---------------------------------------------------------------------------
@@ -418,15 +523,44 @@ def correspondence(res, tier, rng):
                           "bond_dims": [s.get("dims") for s in specs]})
             continue
         system = rand_system(rng, d)
-        control, cdesc = rand_control(rng, d, n)
+        start = STARTS[c % len(STARTS)]
+        control, cdesc = rand_control(rng, d, n, start)
         rho0 = cases.rand_dm(rng, d)
-        real = run_real(system, rho0, pts, n, control)
-        props, controls = system_parts(system, control)
+        real = run_real(system, rho0, pts, n, control, start)
+        # history: overwrite one stored tensor of an object that has been contracted (its tensors
+        # and caps were read), recompute the caps, contract again -- against a FRESH object
+        # holding the same stored tensors (and, below, against the model on the fresh one's tensors)
+        live = [j for j, s_ in enumerate(specs) if s_["kind"] != "trivial"]
+        if live and c % 2 == 0:
+            j = rng.choice(live)
+            k = rng.randrange(n)
+            new = dyadic(rng, specs[j]["mpos"][k].shape, den=2, span=2)
+            specs[j] = dict(specs[j], mpos=[new if kk == k else t for kk, t in enumerate(specs[j]["mpos"])])
+            pts[j].set_mpo_tensor(k, np.array(new, dtype=complex))
+            pts[j].compute_caps()
+            again = run_real(system, rho0, pts, n, control, start)
+            pts = [build_pt(s_, d, n) for s_ in specs]
+            real = run_real(system, rho0, pts, n, control, start)
+            herr = max(np.abs(a - b).max() for a, b in zip(again, real)) \
+                / max(1.0, max(np.abs(x).max() for x in real))
+            res.count("history:overwrite-then-contract")
+            res.case("history:%d:%d:%r" % (j, k, [s_["kind"] for s_ in specs]), True,
+                     {"overwritten": {"env": j, "step": k, "kind": specs[j]["kind"]},
+                      "reused_object_vs_fresh_object": herr})
+            if not herr <= 1e-12:
+                res.disagree("a process tensor whose step %d was overwritten with set_mpo_tensor after a "
+                             "contraction gives states that differ by %g from a fresh object with the "
+                             "same stored tensors" % (k, herr),
+                             {"n": n, "envs": [s_["kind"] for s_ in specs], "env": j, "step": k})
+        props, controls = system_parts(system, control, start)
         ls, tensors = multi_lines(pts, n, L, rho0, props, controls)
-        desc = {"n": n, "envs": [s["kind"] for s in specs],
+        desc = {"n": n, "envs": [s["kind"] for s in specs], "start_time": start,
                 "bond_dims": [s.get("dims") for s in specs], "controls": cdesc}
         checks.append((len(lines), "multi", (desc, real)))
         lines += ls
+        res.count("start_time=%s" % start)
+        for cd in cdesc:
+            res.count("control-key:" + cd[2])
         res.count("envs=%d" % m)
         for s in specs:
             res.count("env:" + s["kind"])
@@ -452,7 +586,7 @@ def correspondence(res, tier, rng):
                 res.count("caps:" + cls)
         # E. commutation hypothesis on two rank-3 environments without transforms + its prediction
         if m == 2 and all(s["kind"] == "rank3" for s in specs):
-            swapped = run_real(system, rho0, pts[::-1], n, control)
+            swapped = run_real(system, rho0, pts[::-1], n, control, start)
             for k in range(n):
                 (T1, D1), (T2, D2) = tensors
                 checks.append((len(lines), "commute", (desc, k, real, swapped)))
@@ -487,11 +621,13 @@ def correspondence(res, tier, rng):
     nj = 12 if tier == "quick" else 60
     for c in range(nj):
         case = ancilla_case(rng, rng.choice(["rank4", "rank4", "rank3"]),
-                            e=(1 if c % 4 == 3 else 2), n=rng.randrange(1, 4 if tier != "quick" else 3))
+                            e=(1 if c % 4 == 3 else 2), n=rng.randrange(1, 4 if tier != "quick" else 3),
+                            timed=(c % 3 != 2))
         err, real, ref = ancilla_error(case)
         n, e = case["n"], case["e"]
         E = e * e
-        props, controls = system_parts(oqupy.System(case["ham"]), case["control"])
+        props, controls = system_parts(oqupy.System(case["ham"]), case["control"], case["start"])
+        res.count("ancilla:start_time=%s" % case["start"])
         eye = np.eye(L, dtype=complex)
         secs = ["joint %d %d %d" % (L, E, n), flat(case["rho0"]), flat(case["rhoE"]),
                 flat(np.eye(e)), *[flat(U) for U in case["Us"]]]
@@ -508,6 +644,16 @@ def correspondence(res, tier, rng):
         checks.append((len(lines), "joint", (case["desc"], real, ref)))
         lines.append(" | ".join(secs))
         res.count("ancilla:" + case["variant"])
+
+    # F. object histories: which stored version does every get_* call answer with
+    nh = 10 if tier == "quick" else 60
+    for c in range(nh):
+        cls = "simple" if c % 3 else "file"
+        kind = "mpo" if c % 4 else "cap"
+        line, answers, desc = history_trace(rng, cls, kind)
+        checks.append((len(lines), "hist", (desc, answers)))
+        lines.append(line)
+        res.count("history-trace:%s:%s" % (cls, kind))
 
     out = fw.run_driver(PID, lines)
     if len(out) != len(lines):
@@ -575,6 +721,13 @@ def correspondence(res, tier, rng):
             if not e3 <= TOL:
                 res.disagree("compute_dynamics on an ancilla process tensor differs from the dense "
                              "joint evolution by %g" % e3, desc)
+        elif kind == "hist":
+            desc, answers = data
+            res.case("hist:" + repr(desc), True, {"case": desc, "real": answers, "model": out[idx]})
+            if out[idx] != answers:
+                res.disagree("history of set_*/get_* calls: the real object answers [%s], the model "
+                             "[%s] (entries: version last stored for that step)" % (answers, out[idx]),
+                             desc)
         elif kind == "commute":
             desc, k, real, swapped = data
             scale = max(1.0, max(np.abs(s).max() for s in real))
@@ -620,11 +773,18 @@ def add_tensor_cap_lines(lines, checks, s, pt, cls, n, L):
 ANCILLA_TOL = 1e-9
 
 
-def oracle_ancilla(res, gen_seed, variant, cls, key=None, wide=False):
+def oracle_ancilla(res, gen_seed, variant, cls, key=None, wide=False, timed=False):
     rng = random.Random(gen_seed)
-    case = ancilla_case(rng, variant, cls, e=(rng.choice([3, 4]) if wide else None))
+    case = ancilla_case(rng, variant, cls, e=(rng.choice([3, 4]) if wide else None), timed=timed)
     err, real, ref = ancilla_error(case)
     if not err <= ANCILLA_TOL:
+        if key is None and timed:
+            # the same case with every control registered by its step instead of its time
+            twin = ancilla_case(random.Random(gen_seed), variant, cls,
+                                e=(random.Random(gen_seed).choice([3, 4]) if wide else None),
+                                timed=True, force_step_keys=True)
+            if ancilla_error(twin)[0] <= ANCILLA_TOL:
+                key = KEY_TIME_CONTROLS
         if key is None:
             if variant.startswith("rank3") and case["spec"]["tin"] is not None and cls == "simple":
                 key = KEY_CAPS_SIMPLE
@@ -634,14 +794,63 @@ def oracle_ancilla(res, gen_seed, variant, cls, key=None, wide=False):
                 key = "joint:%s:%s" % (cls, variant)
         steps = [int(k) for k in range(len(real)) if np.abs(real[k] - ref[k]).max() > ANCILLA_TOL]
         res.fail(key, {"oracle": "ancilla", "gen_seed": gen_seed, "variant": variant, "class": cls,
-                       "wide": wide,
+                       "wide": wide, "timed": timed,
                        "case": case["desc"], "max_state_difference": float(err),
                        "steps_that_differ": steps,
                        "compute_dynamics_state": [[complex(z).real, complex(z).imag] for z in real[steps[0]]],
                        "joint_evolution_state": [[complex(z).real, complex(z).imag] for z in ref[steps[0]]],
                        "how": "hand-built ancilla process tensor (%s, %sProcessTensor, compute_caps): "
-                              "compute_dynamics differs from the traced joint evolution at step(s) %s"
-                              % (variant, cls.capitalize(), steps)})
+                              "compute_dynamics(start_time=%s) differs from the traced joint evolution "
+                              "at step(s) %s" % (variant, cls.capitalize(), case["start"], steps)})
+        return True
+    return False
+
+
+def oracle_history(res, gen_seed, variant, cls, key=None):
+    """contract an ancilla process tensor, overwrite one step with the tensor of another joint map
+    (set_mpo_tensor, compute_caps), contract again: must be the joint evolution with the new map
+    (and what a fresh object with the same stored tensors gives)"""
+    import oqupy
+    rng = random.Random(gen_seed)
+    case = ancilla_case(rng, variant, cls, n=rng.randrange(2, 4), e=2)
+    other = ancilla_case(random.Random(gen_seed + 1), variant, cls, n=case["n"], e=2)
+    j = rng.randrange(case["n"])
+    system = oqupy.System(case["ham"])
+    # the joint maps with step j replaced by the one of `other` (for j = 0 its ancilla state too),
+    # stored in the SAME basis / rank as the tensors of `case`
+    kraus = [other["kraus"][k] if k == j else case["kraus"][k] for k in range(case["n"])]
+    rhoE = other["rhoE"] if j == 0 else case["rhoE"]
+    new_mpos = ancilla_mpos([joint_superop(ks, case["e"], case["d"]) for ks in kraus], rhoE,
+                            case["e"], case["d"])
+    tin, tout = case["spec"]["tin"], case["spec"]["tout"]
+    if variant.startswith("rank3") or tin is not None:
+        eye = np.eye(case["d"] ** 2)
+        new_mpos = store_in_basis(new_mpos, eye if tin is None else tin, eye if tout is None else tout,
+                                  variant.startswith("rank3"))
+    pt = build_pt(case["spec"], case["d"], case["n"], cls)
+    try:
+        first = run_real(system, case["rho0"], [pt], case["n"], case["control"])
+        pt.set_mpo_tensor(j, np.array(new_mpos[j], dtype=complex))
+        pt.compute_caps()
+        second = run_real(system, case["rho0"], [pt], case["n"], case["control"])
+    finally:
+        drop_pt(pt)
+    ref = dense_joint(kraus, rhoE, case["rho0"], case["ham"], case["ctrl_ops"], case["n"],
+                      case["e"], case["d"])
+    err0 = max(np.abs(a - b).max() for a, b in zip(
+        first, dense_joint(case["kraus"], case["rhoE"], case["rho0"], case["ham"], case["ctrl_ops"],
+                           case["n"], case["e"], case["d"])))
+    err = max(np.abs(a - b).max() for a, b in zip(second, ref))
+    if err0 <= ANCILLA_TOL and not err <= ANCILLA_TOL:
+        steps = [int(k) for k in range(len(ref)) if np.abs(second[k] - ref[k]).max() > ANCILLA_TOL]
+        res.fail(key or KEY_HISTORY % cls.capitalize(),
+                 {"oracle": "history", "gen_seed": gen_seed, "variant": variant, "class": cls,
+                  "overwritten_step": j, "case": case["desc"], "max_state_difference": float(err),
+                  "steps_that_differ": steps,
+                  "how": "%sProcessTensor (%s): compute_dynamics, then set_mpo_tensor(%d, <tensor of "
+                         "another joint map>) + compute_caps(), then compute_dynamics again: the second "
+                         "result differs from the joint evolution with the new map at step(s) %s"
+                         % (cls.capitalize(), variant, j, steps)})
         return True
     return False
 
@@ -711,6 +920,19 @@ def search(res):
                 found = oracle_ancilla(res, rng.randrange(10 ** 9), variant, cls, wide=(t == 4)) or found
                 if found:
                     break
+    # float-time controls (pre and post) with start_time != 0
+    for variant in ("rank4", "rank3"):
+        found = False
+        for t in range(6):
+            found = oracle_ancilla(res, rng.randrange(10 ** 9), variant, "simple", timed=True) or found
+            if found:
+                break
+    # mutable-object history: overwrite a step after it was read
+    for variant in ("rank3", "rank4-basis", "rank3-pauli", "rank4"):
+        for cls in ("simple", "file"):
+            for t in range(2):
+                if oracle_history(res, rng.randrange(10 ** 9), variant, cls):
+                    break
     for nenv in (2, 3):
         oracle_order(res, rng, nenv)
     for _ in range(2):
@@ -722,7 +944,9 @@ def replay_case(res, payload):
     key = payload.get("key")
     if fi.get("oracle") == "ancilla":
         return oracle_ancilla(res, fi["gen_seed"], fi["variant"], fi["class"], key,
-                              wide=fi.get("wide", False))
+                              wide=fi.get("wide", False), timed=fi.get("timed", False))
+    if fi.get("oracle") == "history":
+        return oracle_history(res, fi["gen_seed"], fi["variant"], fi["class"], key)
     return False
 
 
@@ -739,12 +963,24 @@ def run(tier, seed, replay):
         "ancilla process tensors (e in {1,2}, unitaries / channels / dephasing couplings) real "
         "compute_dynamics vs mpoRecord(ptOfJoint) vs jointRecord vs numpy density-matrix evolution; "
         "CommuteOn evaluated exactly on shipped rank-3 tensors + the predicted order independence "
-        "of the real code.  Non-trivial = at least one environment; distinct = distinct case.")
+        "of the real code.  Controls are keyed by step (int) or by time (float, pre and post) and the "
+        "computations start at 0, 1.5, -0.8, 0.37, -1.23 (the model gets the controls of step k from "
+        "Control.get_controls(k, dt, start_time)).  Object histories: set -> contract -> overwrite a "
+        "step (set_mpo_tensor + compute_caps) -> contract again vs a fresh object with the same stored "
+        "tensors (1e-12), and random set_*/get_* call traces (Simple, File; mpo, cap) vs objTrace "
+        "with the regenerated memoisation wiring, exactly (which stored version each call answers "
+        "with).  Non-trivial = at least one environment; distinct = distinct case.")
     res.assumptions = [
         "tensornetwork contracts exactly the edges that were joined with `^` (edge identity, not axis "
         "position) and `@` contracts all shared edges",
         "np.dot / np.moveaxis / ndarray.T semantics as documented; h5py returns what was stored",
         "exact arithmetic in the theorems; the float code agrees up to round-off (observed < 1e-12)",
+        "object model: the only state of a process-tensor object that get_mpo_tensor / get_cap_tensor "
+        "read is what set_* stored, the transforms fixed at construction, and the attributes the "
+        "getters themselves write (found by the translator: assignments, deletions, container "
+        "mutators, HDF5 writes on self.*)",
+        "float-time controls are placed at start_time + k*dt, i.e. unambiguously on step k (the "
+        "rounding of other times is C18's subject)",
     ]
     res.not_shown = [
         "exact list-order independence for NON-commuting environments is not claimed (the orders "
@@ -777,8 +1013,11 @@ def run(tier, seed, replay):
         if rc == 0:
             fw.log("OK property=%s replay=%s no longer fails" % (PID, replay))
         return rc
-    fw.standard_pipeline(res, ["MpoWiring"], THEOREMS)
-    translated = all(o[1] for o in res.obligations if o[0].startswith("translator"))
+    # ControlCompose: Props/C03 imports its generated file (loop order, superoperator wiring); it
+    # also pins the text of the `controls(step)` closure (dt and start_time passed on)
+    fw.standard_pipeline(res, ["MpoWiring", "ControlCompose"], THEOREMS)
+    translated = not any((not o[1]) and "fragment MpoWiring" in o[2]
+                         for o in res.obligations if o[0].startswith("translator"))
     try:
         if translated:
             correspondence(res, tier, rng)
